@@ -154,7 +154,7 @@ def oracle(seed, tier):
                 viol.append({"what": "min depth 50 km listed at all four corners (corners with a zero coordinate): feature present at depth 25 km", "world_json": w, "cmd": lines[i],
                              "probe": "listed-value-at-corner-with-zero-coordinate"})
                 break
-    return {"violations": viol[:20], "summary": {"cases": cases, "violations": len(viol), "nontrivial": nontriv}, "samples": samples}
+    return {"violations": trim_violations(viol, 20), "summary": {"cases": cases, "violations": len(viol), "nontrivial": nontriv}, "samples": samples}
 
 
 def replay(rp):
